@@ -98,7 +98,9 @@ class Ctx:
             e["GOCOVERDIR"] = os.environ["VERIF_COVER"]
         p = subprocess.run([exe] + args, capture_output=True, text=True, timeout=timeout, env=e)
         if check and p.returncode != 0:
-            raise Infra("harness %s failed (%d): %s" % (args[:1], p.returncode, p.stderr[-4000:]))
+            # a Go runtime abort ("fatal error: ...") is followed by a dump of every goroutine: keep its first line in the message
+            head = next((ln for ln in p.stderr.splitlines() if ln.startswith("fatal error:")), "")
+            raise Infra("harness %s failed (%d): %s%s" % (args[:1], p.returncode, head + "\n" if head else "", p.stderr[-4000:]))
         return p
 
     # ---------------- TLC ----------------
